@@ -195,6 +195,9 @@ func bufOriginsOK(p *Prog, v ssa.Value, depth int, seen map[ssa.Value]bool) (boo
 		// the caller's buffer
 		return true, ""
 	case *ssa.Call:
+		if calleeName(x) == "builtin append" && len(x.Call.Args) > 0 {
+			return bufOriginsOK(p, x.Call.Args[0], depth-1, seen)
+		}
 		if cal := p.calleeOf(x); cal != nil && cal.Pkg == p.RPC {
 			switch fname(cal) {
 			case "checkBuffer":
@@ -302,4 +305,241 @@ func ruleSeqMonotone(c *Check, a *Analysis, rule string) {
 	if n == 0 {
 		c.Undecided(rule, "no store into Conn.seq found")
 	}
+}
+
+// rulePoolOwnBuffers (C11/C12): only memory that came from the buffer pool goes back into it.
+func rulePoolOwnBuffers(c *Check, a *Analysis, rule string) {
+	p := c.P
+	c.Rule(rule, "every slice handed to a buffer pool's PutBuffer is memory the library obtained itself (GetBuffer / a pooled field / a fresh allocation), never the result of a pluggable call (a body codec's or header encoder's Marshal may return the caller's own argument slice: pooled, it becomes scratch space for every connection of the process while the caller still owns it)", 6)
+	sc := siteCounter{}
+	var bad func(v ssa.Value, d int, seen map[ssa.Value]bool) string
+	bad = func(v ssa.Value, d int, seen map[ssa.Value]bool) string {
+		if v == nil || d == 0 || seen[v] {
+			return ""
+		}
+		seen[v] = true
+		for _, o := range p.origins(v) {
+			o = p.canon(o)
+			switch x := o.(type) {
+			case *ssa.Slice:
+				if w := bad(x.X, d-1, seen); w != "" {
+					return w
+				}
+			case *ssa.Extract:
+				if cc, ok := x.Tuple.(*ssa.Call); ok && cc.Common().IsInvoke() {
+					return "the result of " + calleeName(cc)
+				}
+			case *ssa.Call:
+				if x.Common().IsInvoke() {
+					n := x.Common().Method.Name()
+					if n == "GetBuffer" {
+						continue
+					}
+					return "the result of " + calleeName(x)
+				}
+				if cal := x.Common().StaticCallee(); cal != nil {
+					n := cal.Name()
+					if strings.Contains(n, "GetBuffer") || n == "checkBuffer" || n == "GetContextBuffer" || strings.HasPrefix(calleeName(x), "builtin ") {
+						if n == "checkBuffer" && len(x.Common().Args) > 0 {
+							if w := bad(x.Common().Args[0], d-1, seen); w != "" {
+								return w
+							}
+						}
+						continue
+					}
+					if cal.Pkg != p.RPC {
+						return "the result of " + calleeName(x)
+					}
+				} else {
+					return "the result of a call through a function value"
+				}
+			}
+		}
+		return ""
+	}
+	for _, fn := range p.Fns {
+		eachInstr(fn, func(in ssa.Instruction) {
+			cc, ok := in.(*ssa.Call)
+			if !ok {
+				return
+			}
+			name := ""
+			var arg ssa.Value
+			if cc.Common().IsInvoke() && cc.Common().Method.Name() == "PutBuffer" && len(cc.Common().Args) == 1 {
+				name, arg = "PutBuffer", cc.Common().Args[0]
+			} else if cal := cc.Common().StaticCallee(); cal != nil && cal.Name() == "PutBuffer" && len(cc.Common().Args) >= 1 {
+				name, arg = "PutBuffer", cc.Common().Args[len(cc.Common().Args)-1]
+			}
+			if name == "" || fn.Name() == "PutBuffer" {
+				return
+			}
+			w := bad(arg, 6, map[ssa.Value]bool{})
+			c.Ob(rule, sc.key(fn, "pooled buffer is the library's own"), p.InstrPos(in), w == "", ifs(w != "", "the slice handed to the pool can be "+w+": memory the library does not own is recycled as scratch space"))
+		})
+	}
+}
+
+// ruleSnapshotFresh (C16/C18): the remembered live-address list is private to the comparison.
+func ruleSnapshotFresh(c *Check, a *Analysis, rule string) {
+	p := c.P
+	c.Rule(rule, "the address list stored into Client.last (the snapshot the next probe compares the live set with) is built in a slice allocated by that very probe — never in scratch memory kept in another field, which the next probe overwrites before comparing (a change that keeps the number of live targets then compares the array with itself and the live list is never rebuilt)", 1)
+	sc := siteCounter{}
+	n := 0
+	var fresh func(v ssa.Value, d int, seen map[ssa.Value]bool) string
+	fresh = func(v ssa.Value, d int, seen map[ssa.Value]bool) string {
+		if v == nil || d == 0 || seen[v] {
+			return ""
+		}
+		seen[v] = true
+		for _, o := range p.origins(v) {
+			o = p.canon(o)
+			switch x := o.(type) {
+			case *ssa.Slice:
+				if w := fresh(x.X, d-1, seen); w != "" {
+					return w
+				}
+			case *ssa.Call:
+				if calleeName(x) == "builtin append" {
+					if w := fresh(x.Call.Args[0], d-1, seen); w != "" {
+						return w
+					}
+				}
+			case *ssa.UnOp:
+				if x.Op == token.MUL {
+					if fr, _, ok := fieldOfAddr(x.X); ok {
+						return fr.String()
+					}
+				}
+			}
+		}
+		return ""
+	}
+	for _, s := range p.storesToField("Client", "last") {
+		st := s.Instr.(*ssa.Store)
+		if nilConst(st.Val) {
+			continue
+		}
+		n++
+		w := fresh(st.Val, 8, map[ssa.Value]bool{})
+		c.Ob(rule, sc.key(s.Fn, "Client.last holds a private slice"), p.InstrPos(st), w == "", ifs(w != "", "the snapshot shares its backing array with "+w+": the next probe rewrites it before the comparison, so a change of the live set that keeps its size goes unnoticed — callers keep being routed to a dead target and a recovered one is never used"))
+	}
+	if n == 0 {
+		c.Undecided(rule, "no store into Client.last found")
+	}
+}
+
+// ruleCompletionChanBuffered (C02/C18): channels the library makes for non-blocking completion signals have room.
+func ruleCompletionChanBuffered(c *Check, a *Analysis, rule string, elem string) {
+	p := c.P
+	c.Rule(rule, "every channel of *"+elem+" that the library itself makes has a constant capacity ≥ 1: completions and wake-ups are delivered by a non-blocking send (select with default) after the entry has left its table, so on an unbuffered channel a signal that arrives before the receiver is parked is dropped and nothing ever sends it again", 1)
+	sc := siteCounter{}
+	for _, fn := range p.AllFns {
+		eachInstrLocal(fn, func(in ssa.Instruction) {
+			mk, ok := in.(*ssa.MakeChan)
+			if !ok {
+				return
+			}
+			ch, ok := mk.Type().Underlying().(*types.Chan)
+			if !ok {
+				return
+			}
+			el := namedOf(ch.Elem())
+			if el != elem {
+				return
+			}
+			k, isK := constInt(mk.Size)
+			okc := isK && k >= 1
+			c.Ob(rule, sc.key(topParent(fn), "chan "+el+" has capacity"), p.InstrPos(in), okc, ifs(!okc, "a completion channel is made without capacity: the non-blocking signal is lost whenever the receiver is not yet parked in its select — the caller then waits out its full timeout (or for ever)"))
+		})
+	}
+}
+
+// ruleQueueConfig (C05): the per-connection queues run in the one configuration whose ordering was read in the dependency.
+func ruleQueueConfig(c *Check, a *Analysis, rule string) {
+	p := c.P
+	c.Rule(rule, "the options passed to scheduler.New set nothing but Threshold (no IdleTime, no other field): the FIFO behaviour of the one-worker queue is trusted for that configuration only — with an idle time the dependency's idle check can retire a worker that is in the middle of a task and strand the next queued request until a later one overtakes it", 5)
+	sc := siteCounter{}
+	for _, fn := range p.Fns {
+		for _, nw := range callsIn(fn, "scheduler.New") {
+			call := nw.(*ssa.Call)
+			if len(call.Call.Args) < 2 {
+				continue
+			}
+			opt := p.canon(call.Call.Args[1])
+			bad := ""
+			if al, ok := opt.(*ssa.Alloc); ok {
+				if al.Referrers() != nil {
+					for _, r := range *al.Referrers() {
+						fa, ok := r.(*ssa.FieldAddr)
+						if !ok || fa.Referrers() == nil {
+							continue
+						}
+						name := ""
+						if pt, ok := al.Type().Underlying().(*types.Pointer); ok {
+							if stt, ok := pt.Elem().Underlying().(*types.Struct); ok && fa.Field < stt.NumFields() {
+								name = stt.Field(fa.Field).Name()
+							}
+						}
+						for _, u := range *fa.Referrers() {
+							if st, ok := u.(*ssa.Store); ok && name != "Threshold" && !isZeroValue(st.Val) {
+								bad = name
+							}
+						}
+					}
+				}
+			} else if !nilConst(opt) {
+				bad = "options built elsewhere"
+			}
+			c.Ob(rule, sc.key(fn, "scheduler.Options{Threshold} only"), p.InstrPos(call), bad == "", ifs(bad != "", "this queue is configured with "+bad+": outside the configuration for which one worker means first-in first-out"))
+		}
+	}
+}
+
+// ruleDecodeRouteConstant (C05): a connection's frames all take the same route.
+func ruleDecodeRouteConstant(c *Check, a *Analysis, rule string) {
+	p := c.P
+	c.Rule(rule, "in every reader loop (client reader, ServeCodec, poll callback) the decode function is called directly — instead of through the connection's one-worker decode queue — only under the connection-constant direct-IO setting: if the route depended on the frame (its size, its kind), a frame decoded inline would overtake earlier frames still waiting in the queue", 3)
+	sc := siteCounter{}
+	n := 0
+	for _, spec := range []struct{ decode, st, field string }{
+		{"(*Conn).read", "Conn", "directIO"},
+		{"(*Server).ServeRequest", "Server", "directIO"},
+	} {
+		dec := p.Fn(spec.decode)
+		if dec == nil {
+			c.Undecided(rule, spec.decode+" not found")
+			continue
+		}
+		for _, cs := range p.Callers(dec) {
+			f := cs.Parent()
+			home := p.homeOf(f)
+			top := home
+			// a reader: the function that calls the decode directly also hands it to a queue in a closure
+			queued := false
+			for _, g := range append(withClosures(home), withClosures(f)...) {
+				if g != home && g != f && len(callsInLocal(g, spec.decode)) > 0 {
+					queued = true
+				}
+			}
+			if !queued {
+				continue
+			}
+			n++
+			g, _ := p.guardedBy(cs, matchBoolField(spec.st, spec.field))
+			c.Ob(rule, sc.key(top, "inline decode only with direct IO"), p.InstrPos(cs), g, ifs(!g, "the reader can call "+spec.decode+" directly although direct IO is off: frames that take this path are decoded (and completed / dispatched) ahead of earlier frames waiting in the decode queue"))
+		}
+	}
+	if n == 0 {
+		c.Undecided(rule, "no reader with both an inline and a queued decode found")
+	}
+}
+
+func callsInLocal(fn *ssa.Function, name string) []ssa.CallInstruction {
+	var out []ssa.CallInstruction
+	eachInstrLocal(fn, func(in ssa.Instruction) {
+		if cc, ok := in.(ssa.CallInstruction); ok && calleeName(cc) == name {
+			out = append(out, cc)
+		}
+	})
+	return out
 }
